@@ -89,24 +89,25 @@ func (o *sphOp) term() string {
 
 // sphRun executes ops on one handler, checks the monitors and builds the CASE term.
 type sphRun struct {
-	w            *bufio.Writer
-	v            *ackhandler.VerifSentPH
-	hdr          string
-	ops          []string // "(op, oracle, obs)" terms
-	trace        []string // op terms only (monitor detail)
-	cbCount      map[int64]int
-	sentIDs      map[int64]bool
-	exempt       map[int64]bool
-	sentPNs      [3]map[int64]bool
-	skipped      []int64 // application-data numbers the harness saw skipped, in order
-	appHi        int64
-	failed       map[string]bool
-	nextID       int64
-	kinds        map[string]int
-	acksWithLoss int
-	pvErrors     int
-	timeoutsPTO  int
-	panicked     bool
+	w              *bufio.Writer
+	v              *ackhandler.VerifSentPH
+	hdr            string
+	ops            []string // "(op, oracle, obs)" terms
+	trace          []string // op terms only (monitor detail)
+	cbCount        map[int64]int
+	sentIDs        map[int64]bool
+	exempt         map[int64]bool
+	sentPNs        [3]map[int64]bool
+	skipped        []int64 // application-data numbers the harness saw skipped, in order
+	appHi          int64
+	sentSinceReset bool
+	failed         map[string]bool
+	nextID         int64
+	kinds          map[string]int
+	acksWithLoss   int
+	pvErrors       int
+	timeoutsPTO    int
+	panicked       bool
 }
 
 func spaceIdx(l int64) int {
@@ -395,6 +396,17 @@ func (r *sphRun) monitors(o *sphOp, ret int64, before trackedSummary, bifBefore,
 	if o.kind == "timeout" && ob.PtoCount > 0 {
 		r.timeoutsPTO++
 	}
+	// --- client anti-deadlock: while the server may still be amplification-blocked, a client that has sent
+	// something keeps a deadline armed (RFC 9002 6.2.2.1)
+	if o.kind == "send" && ret >= 0 {
+		r.sentSinceReset = true
+	}
+	if o.kind == "retry" {
+		r.sentSinceReset = false
+	}
+	if r.v.IsClient() && !r.v.PeerCompletedAddressValidation() && r.sentSinceReset && r.v.AlarmTime() == 0 {
+		r.monfail("sentph/client-deadlock-timer", "client has not seen the peer complete address validation, packets were sent, but no loss detection alarm is set")
+	}
 	// --- timer armed
 	crypto := outCount[0] > 0 || outCount[1] > 0
 	app := r.v.HandshakeConfirmed() && outCount[2] > 0
@@ -681,9 +693,34 @@ func sphWitness(w *bufio.Writer) {
 	fmt.Fprintf(w, "SAMPLE\twitness ack-old-skipped: skipped=%v failed=%v\n", r.skipped, r.failed["sentph/ack-old-skipped"])
 }
 
+// sphMigrateObservation: three path probes outstanding, then MigratedPath. The loop
+// `for pn := range PathProbes() { RemovePathProbe(pn) }` removes while iterating, so probes survive
+// (observation, not a property violation: survivors are resolved later). Emitted as a CASE so that the
+// model's transliteration of that loop is compared with the implementation.
+func sphMigrateObservation(w *bufio.Writer) {
+	r := newSphRun(w, false, true, 0, 0, 0)
+	t := int64(1_000_000_000)
+	r.exec(&sphOp{kind: "drop", l: lvInitial, now: t})
+	r.exec(&sphOp{kind: "drop", l: lvHandshake, now: t})
+	for i := int64(0); i < 3; i++ {
+		r.exec(&sphOp{kind: "send", l: lv1RTT, now: t + i, la: -1, fs: []int64{10 + i}, size: 1200, probe: true})
+	}
+	r.exec(&sphOp{kind: "migrate", now: t + 10})
+	left := 0
+	for _, tr := range r.v.Tracked() {
+		if tr.PathProbe && len(tr.FrameIDs) > 0 {
+			left++
+		}
+	}
+	r.exec(&sphOp{kind: "timeout", now: t + 2_000_000_000})
+	fmt.Fprintf(w, "CASE 1 %s\n", r.caseTerm())
+	fmt.Fprintf(w, "SAMPLE\tobservation: 3 path probes outstanding at MigratedPath, %d still tracked afterwards\n", left)
+}
+
 func runSentPH(w *bufio.Writer, seed uint64, n int, _ []string) {
 	root := u.NewRng(seed)
 	sphWitness(w)
+	sphMigrateObservation(w)
 	dist := map[string]int{}
 	thorough := os.Getenv("VERIF_TIER") == "thorough"
 	_ = thorough
